@@ -653,11 +653,17 @@ func (fc *followerController) SendSnapshot(stream proto.OxiaLogReplication_SendS
 	return closeStreamWg.Wait(fc.ctx)
 }
 
-func (fc *followerController) readSnapshotStream(stream proto.OxiaLogReplication_SendSnapshotServer, loader kv.SnapshotLoader) (int64, error) {
+func (fc *followerController) readSnapshotStream(stream proto.OxiaLogReplication_SendSnapshotServer, firstChunk *proto.SnapshotChunk, loader kv.SnapshotLoader) (int64, error) {
 	var totalSize int64
 
 	for {
-		snapChunk, err := stream.Recv()
+		var snapChunk *proto.SnapshotChunk
+		var err error
+		if firstChunk != nil {
+			snapChunk, firstChunk = firstChunk, nil
+		} else {
+			snapChunk, err = stream.Recv()
+		}
 		switch {
 		case err != nil:
 			if errors.Is(err, io.EOF) {
@@ -697,8 +703,20 @@ func (fc *followerController) handleSnapshot(stream proto.OxiaLogReplication_Sen
 	fc.Lock()
 	defer fc.Unlock()
 
+	// Look at the first chunk before touching the local state: a snapshot sent by the
+	// leader of another term must not wipe out the WAL and the DB of this node
+	firstChunk, err := stream.Recv()
+	if err != nil && !errors.Is(err, io.EOF) {
+		fc.closeStreamNoMutex(err)
+		return
+	}
+	if firstChunk != nil && fc.term != wal.InvalidTerm && firstChunk.Term != fc.term {
+		fc.closeStreamNoMutex(constant.ErrInvalidTerm)
+		return
+	}
+
 	// Wipe out both WAL and DB contents
-	err := fc.wal.Clear()
+	err = fc.wal.Clear()
 	if err != nil {
 		fc.closeStreamNoMutex(err)
 		return
@@ -722,7 +740,7 @@ func (fc *followerController) handleSnapshot(stream proto.OxiaLogReplication_Sen
 
 	defer loader.Close()
 
-	totalSize, err := fc.readSnapshotStream(stream, loader)
+	totalSize, err := fc.readSnapshotStream(stream, firstChunk, loader)
 	if err != nil {
 		return
 	}
